@@ -9,7 +9,7 @@ RULE = ("ops: mk (constructor, ints around 0 / 2^11 / 2^29 / 2^31 / 2^32 incl. n
         "any order, several source addresses per PGN, received id with other priority/source/destination). quick: all 2^11 standard "
         "ids for mk/compound + each field swept exhaustively with the others at boundary/random values + random; thorough: 10^6 more. "
         "Received identifiers include 29-bit ones with the number of an 11-bit frame of the matrix. "
-        "Non-trivial = distinct case other than the zero identifier.")
+        "The matrix of a 'resolve' case has a history (a frame carried the received identifier, was found under it, and got its own identifier back by assignment). case 'jdec' = canmatrix.j1939_decoder.decode(id, payload, matrix) on matrices whose frames carry PGNs the bundled J1939 database knows as well, and proprietary ones. Non-trivial = distinct case other than the zero identifier.")
 EXHAUSTIVE = {"quick": False, "thorough": False}
 PARTIAL = ["the payload decoding after frame resolution is C01's; here only which frame is chosen is compared"]
 ASSUMPTIONS = ["identifiers are Python ints, the extended flag a bool (the deprecated extended=None wildcard is outside the domain)"]
@@ -88,8 +88,35 @@ def gen(rng, tier, shard, nshards):
             yield {"op": "set", "c": [rand_ext(rng) if ext else rng.randrange(1 << 11), ext, which, v]}
         elif c < 0.6:
             yield {"op": "frompgn", "c": [rng.randrange(1 << 18)]}
-        else:
+        elif c < 0.9:
             yield resolve_case(rng)
+        else:
+            yield jdec_case(rng)
+
+
+KNOWN_PGNS = [0xF004, 0xF002, 0xFE4A, 0xFEF1, 0x0100, 0xFEEE]      # PGNs the bundled j1939.dbc defines as well
+OWN_PGNS = [0xFF04, 0xFF21, 0x1200, 0xEF00]                          # proprietary ones
+
+
+def jdec_case(rng):
+    """canmatrix.j1939_decoder.decode(id, payload, matrix): the matrix's own frame of that PGN comes first"""
+    frames = []
+    used = set()
+    for k in range(rng.randint(1, 4)):
+        if rng.random() < 0.25:
+            i, ext = rng.randrange(1 << 11), False
+        else:
+            p = rng.choice(KNOWN_PGNS + OWN_PGNS)
+            i, ext = (rng.randrange(8) << 26) | (p << 8) | rng.choice([0, 1, 254]), True
+        if (i, ext) in used:
+            continue
+        used.add((i, ext))
+        frames.append(["f%d" % k, i, ext, ext])
+    p = rng.choice(KNOWN_PGNS + OWN_PGNS + [0x1300])
+    kid = (rng.randrange(8) << 26) | (p << 8) | rng.randrange(256)
+    if p < 0xF000 and rng.random() < 0.5:
+        kid |= rng.randrange(256) << 8          # PDU1: a destination address
+    return {"op": "jdec", "c": {"frames": frames, "k": [kid, True]}}
 
 
 def resolve_case(rng):
@@ -176,12 +203,36 @@ def observe(case):
         if op == "frompgn":
             a = cm.ArbitrationId.from_pgn(c[0])
             return {"ok": aid(a) + [a.pgn]}
+        if op == "jdec":
+            import canmatrix.j1939_decoder
+            db = cm.CanMatrix()
+            for name, i, ext, j in c["frames"]:
+                fr = cm.Frame(name, arbitration_id=cm.ArbitrationId(i, ext), size=8, is_j1939=j)
+                fr.add_signal(cm.Signal("sig_" + name, start_bit=0, size=8, is_signed=False))
+                db.add_frame(fr)
+            dec = canmatrix.j1939_decoder.j1939_decoder()
+            text, values = dec.decode(cm.ArbitrationId(c["k"][0], c["k"][1]), bytes([1, 2, 3, 4, 5, 6, 7, 8]), db)
+            kind = "regular" if text.startswith("regular ") else "known" if text.startswith("J1939 known: ") else "other"
+            return {"kind": kind, "name": text[8:] if kind == "regular" else None, "signals": sorted(values.keys()) if kind == "regular" else None}
         if op == "resolve":
             db = cm.CanMatrix()
             for name, i, ext, j in c["frames"]:
                 fr = cm.Frame(name, arbitration_id=cm.ArbitrationId(i, ext), size=1, is_j1939=j)
                 fr.add_signal(cm.Signal("sig_" + name, start_bit=0, size=8, is_signed=False))
                 db.add_frame(fr)
+            # the matrix has a history: one of its frames carried the received identifier a moment ago (and was found under it),
+            # then got its own identifier back by assignment; the received identifier is decoded after that
+            if db.frames:
+                f0 = db.frames[len(c["frames"]) // 2]
+                own = (f0.arbitration_id.id, f0.arbitration_id.extended)
+                if (c["k"][0], bool(c["k"][1])) != (own[0], bool(own[1])):
+                    f0.arbitration_id.id, f0.arbitration_id.extended = c["k"][0], c["k"][1]
+                    try:
+                        db.decode(cm.ArbitrationId(c["k"][0], c["k"][1]), b"\x55")
+                        db.frame_by_id(cm.ArbitrationId(c["k"][0], c["k"][1]))
+                    except Exception:  # noqa
+                        pass
+                    f0.arbitration_id.id, f0.arbitration_id.extended = own
             d = db.decode(cm.ArbitrationId(c["k"][0], c["k"][1]), b"\x55")
             if not d:
                 return {"ok": None}
@@ -193,6 +244,8 @@ def observe(case):
 
 
 def project(impl):
+    if "kind" in impl:
+        return {"kind": impl["kind"], "name": impl["name"]} if impl["kind"] == "regular" else {"kind": "not-regular"}
     return impl
 
 
@@ -211,7 +264,7 @@ def features(case, impl):
 
 def nontrivial(case, impl):
     c = case["c"]
-    return case["op"] == "resolve" or c[0] != 0
+    return case["op"] in ("resolve", "jdec") or c[0] != 0
 
 
 def shrink_candidates(case):
